@@ -108,7 +108,7 @@ def main():
       for ak in ("auto", "auto_po2", "none", "const"):
         g = rnd.choice(GRIDS)
         al = rnd.choice([0.5, 2.0, 1.0, 0.75]) if ak == "const" else 1.0
-        thr = rnd.choice([None, 0.5, 0.1, 0.33]) if ak in ("none", "const") else None
+        thr = rnd.choice([None, 0.5, 0.1, 0.33, 0.0]) if ak in ("none", "const") else None   # 0.0 is a threshold too
         thr32 = float(np.float32(0.33 if thr is None else thr))
         alpha = {"auto": "auto", "auto_po2": "auto_po2", "none": None, "const": al}[ak]
         meta = {"cls": "ternary", "use01": 0, "ak": ak, "al": dy(al), "thr": dy(thr32), "shape": shape, "sa": [],
